@@ -2,6 +2,8 @@
 // in the reference simulator with the per-cycle plan of the case file and logs every handshake signal.
 //
 //   C16_stream run <casefile> <out>
+//   (every case runs under a wall-clock limit of C16_CASE_TIMEOUT seconds, default 20: SIGALRM ends the process, the output
+//    file is flushed per case so that the first case without output is the one that did not finish)
 //
 // case file (written by checks/C16.py, every random choice derives from VERIF_SEED there):
 //   C <id> w=<bits per digit> mw=<meta bits> min=<digits of the input payload> chain=<s1,s2,...>
@@ -54,6 +56,7 @@
 #include <gatery/scl/stream/strm.h>
 #include <gatery/scl/stream/streamFifo.h>
 #include <memory>
+#include <unistd.h>
 
 using namespace gtry;
 using gtry::scl::strm::valid; using gtry::scl::strm::ready; using gtry::scl::strm::eop; using gtry::scl::strm::txid;
@@ -464,12 +467,18 @@ int main(int argc, char **argv)
 			cases.back().plan.push_back(p);
 		}
 	}
+	// per-case wall-clock limit: a stage that does not elaborate / simulate within the limit kills the process with SIGALRM;
+	// the output is flushed after every case, so the caller sees which case it was (the first one without output)
+	unsigned limit = 20;
+	if (const char *e = getenv("C16_CASE_TIMEOUT")) limit = (unsigned)strtoul(e, nullptr, 10);
 	for (auto &c : cases) {
 		std::ostringstream tmp;
-		try { runCase(c, tmp); out << tmp.str(); }
+		alarm(limit);
+		try { runCase(c, tmp); alarm(0); out << tmp.str(); out.flush(); }
 		catch (const std::exception &e) {
 			std::string msg = e.what(); for (auto &ch : msg) if (ch == '\n') ch = ' ';
-			out << "X " << c.id << " error=" << msg.substr(0, 400) << "\n";
+			alarm(0);
+			out << "X " << c.id << " error=" << msg.substr(0, 400) << "\n"; out.flush();
 		}
 	}
 	return 0;
